@@ -395,7 +395,7 @@ pub fn run(args: &Args) -> Report {
     rep.bounds.insert("histories_per_end".into(), serde_json::json!(hs.len()));
     rep.bounds.insert("alphabet".into(), serde_json::json!(op_str(&alphabet())));
     let plan = Plan {
-        ks: if thorough { vec![0, 1, 2, 3] } else { vec![0, 1] },
+        ks: if thorough { vec![0, 1, 2, 3] } else { vec![0, 1, 2] },
         env: 0,
         fault: 1,
         total_wall: Duration::from_secs(if thorough { 1500 } else { 50 }),
